@@ -14,7 +14,13 @@ _c01, _c02 = _load("c01"), _load("c02")
 ALPHABET = ['x', 'y', '2', '3', '0', '.', '^', '+', '-', '/', '*', '(', ')', ' ', '#']
 CHUNK_MIN = 64   # enum requests are heavy: spread them over all cores
 
-RULE = ("exhaustive: every string of length <= 5 (quick) / 6 (thorough) over {x,y,2,3,0,.,^,+,-,/,*,(,),space,#} through both "
+RULE = ("(hardening 4: every accepted text is also evaluated with every variable = 1 and with every variable = 2, where both the "
+        "polynomial and the reading are exact up to a few roundings, and must agree within a few units in the last place per character "
+        "[plus the exponents' own rounding amplified by |exponent| ln 2] - the three general points allow 1e-9; coefficients and "
+        "exponents spelled a relative 1e-1..1e-17 next to 1, 2, 3, 10, 100, 1/2, 1/3, 2/3, 5/2 and 0 as decimals, as ratios of huge "
+        "integers [2000000001/2000000000, (v 2^53 +- 1)/2^53] and as merged exponents of repeated variables [x^0.5000000001x^0.5, "
+        "x^0.6x^0.3x^0.1, x^1/4x^1/4], in 25 places of a term, through both parsers) "
+        "exhaustive: every string of length <= 5 (quick) / 6 (thorough) over {x,y,2,3,0,.,^,+,-,/,*,(,),space,#} through both "
         "parsers (digest per 2-symbol prefix class, refined to a single string on any difference), plus grammatical strings "
         "mutated with arbitrary Unicode and extreme exponent magnitudes; exhaustive also over {x,X,y,k,e-acute,Omega,2,^,+,-,.,space} to "
         "length 5/6, over all 52 ASCII letters + {2,^,+,-,.,space,/,e-acute} to length 3/4 and over {x,y,2,^,+,-,.,/} to length 6/7; "
